@@ -281,7 +281,9 @@ func decodeBlockToValue(block *hcl.Block, ctx *hcl.EvalContext, v reflect.Value)
 		lfieldIdx := blockTags.Labels[li].FieldIndex
 		lfieldName := blockTags.Labels[li].Name
 
-		v.Field(lfieldIdx).Set(reflect.ValueOf(lv))
+		// (SetString rather than Set, so that a label field of a named
+		// string type can be decoded into, as it can be encoded from)
+		v.Field(lfieldIdx).SetString(lv)
 
 		if ix, exists := blockTags.LabelRange[lfieldName]; exists {
 			v.Field(ix).Set(reflect.ValueOf(block.LabelRanges[li]))
